@@ -478,18 +478,72 @@ pub open spec fn valid_type(c: Seq<char>) -> bool { c == "940"@ || c == "941"@ |
 
 # ---- MT940 / MT942: the structural rules (documented as guaranteed by the data model: never reported) and the D/C mark rule
 TYPES['940'] = dict(
-    preamble='pub open spec fn none_spec(m: &MT940) -> Seq<Seq<char>> { seq![] }',
+    includes=['inc/cprefix.vu'],
+    preamble='''pub open spec fn none_spec(m: &MT940) -> Seq<Seq<char>> { seq![] }
+/// C2 (C27): the first two characters of the currency code of 62F, 64 and every 65 equal those of 60F (one error per field)
+pub open spec fn c2_head(m: &MT940) -> Seq<Seq<char>> {
+    one_if(cprefix(m.field_62f.currency@) != cprefix(m.field_60f.currency@), "C27"@)
+    + one_if(m.field_64.is_some() && cprefix(m.field_64.unwrap().currency@) != cprefix(m.field_60f.currency@), "C27"@)
+}
+pub open spec fn c2_65(acc: Seq<Seq<char>>, m: &MT940, v: Seq<Field65>, n: int) -> Seq<Seq<char>>
+    decreases n
+{ if n <= 0 { acc } else { c2_65(acc, m, v, n - 1) + one_if(cprefix(v[n - 1].currency@) != cprefix(m.field_60f.currency@), "C27"@) } }
+pub open spec fn c2_spec(m: &MT940) -> Seq<Seq<char>> {
+    if m.field_65.is_some() { c2_65(c2_head(m), m, m.field_65.unwrap()@, m.field_65.unwrap()@.len() as int) } else { c2_head(m) }
+}''',
+    helpers=[
+        ('get_field_60f_currency', 'r@ == self.field_60f.currency@'),
+        ('get_field_62f_currency', 'r@ == self.field_62f.currency@'),
+        ('get_field_64_currency', 'r.is_some() == self.field_64.is_some() && (r.is_some() ==> r.unwrap()@ == self.field_64.unwrap().currency@)'),
+        ('get_currency_prefix', 'r@ == cprefix(currency@)'),
+    ],
     rules=[
         vec('validate_c1_field_86_follows_61', 'none_spec', doc='C1 (C24): documented as enforced by the message structure: never reported'),
-        stub('validate_c2_currency_consistency', 'byte slicing of a struct field (needs an ASCII invariant on the message)'),
+        vec('validate_c2_currency_consistency', 'c2_spec', doc='C2 (C27)', extra='''
+body replace "for (idx, field_65) in field_65_vec.iter().enumerate()" => "for field_65 in field_65_vec"
+body replace "idx + 1, " => "0usize, "
+fmtcat *
+loop 0 iter=it
+  invariant reference_prefix@ == cprefix(self.field_60f.currency@), codes(errors@) == c2_65(c2_head(self), self, field_65_vec@, it.index@ as int)
+hint start
+  broadcast use group_codes;
+'''),
     ])
 TYPES['942'] = dict(
-    preamble='pub open spec fn none_spec(m: &MT942) -> Seq<Seq<char>> { seq![] }',
+    includes=['inc/cprefix.vu'],
+    preamble='''pub open spec fn none_spec(m: &MT942) -> Seq<Seq<char>> { seq![] }
+/// C1 (C27): the first two characters of the currency code of the second 34F, of 90D and of 90C equal those of the first 34F
+pub open spec fn base942(m: &MT942) -> Seq<char> { cprefix(m.floor_limit_debit.currency@) }
+pub open spec fn c1_spec(m: &MT942) -> Seq<Seq<char>> {
+    one_if(m.floor_limit_credit.is_some() && cprefix(m.floor_limit_credit.unwrap().currency@) != base942(m), "C27"@)
+    + one_if(m.field_90d.is_some() && cprefix(m.field_90d.unwrap().currency@) != base942(m), "C27"@)
+    + one_if(m.field_90c.is_some() && cprefix(m.field_90c.unwrap().currency@) != base942(m), "C27"@)
+}''',
+    helpers=[('get_base_currency', 'r@ == base942(self)')],
     rules=[
-        stub('validate_c1_currency_consistency', 'byte slicing of a struct field (needs an ASCII invariant on the message)'),
+        vec('validate_c1_currency_consistency', 'c1_spec', doc='C1 (C27)', extra='hint start\n  broadcast use group_codes;\nfmtcat *'),
         opt('validate_c2_floor_limit_dc_mark', 'C23',
             "if m.floor_limit_credit.is_some() { m.floor_limit_debit.indicator != Some('D') || m.floor_limit_credit.unwrap().indicator != Some('C') } else { m.floor_limit_debit.indicator.is_some() }",
             doc='C2 (C23): one 34F => no D/C mark; two 34F => first D, second C', extra='fmtcat *'),
         vec('validate_c3_field_86_positioning', 'none_spec', doc='C3 (C24): documented as enforced by the message structure: never reported',
             extra='loop 0 iter=it\n  invariant errors@.len() == 0\nhint start\n  broadcast use group_codes;'),
+    ])
+
+# ---- MT950: C1 (C27) currency prefix of 62a and 64 equals that of 60a
+TYPES['950'] = dict(
+    includes=['inc/cprefix.vu'],
+    preamble='''
+pub open spec fn ccy60(m: &MT950) -> Seq<char> { match m.field_60 { Field60::F(f) => f.currency@, Field60::M(f) => f.currency@ } }
+pub open spec fn ccy62(m: &MT950) -> Seq<char> { match m.field_62 { Field62::F(f) => f.currency@, Field62::M(f) => f.currency@ } }
+pub open spec fn c1_spec(m: &MT950) -> Seq<Seq<char>> {
+    one_if(cprefix(ccy62(m)) != cprefix(ccy60(m)), "C27"@) + one_if(m.field_64.is_some() && cprefix(m.field_64.unwrap().currency@) != cprefix(ccy60(m)), "C27"@)
+}''',
+    helpers=[
+        ('get_field_60_currency_prefix', 'r@ == cprefix(ccy60(self))'),
+        ('get_field_62_currency_prefix', 'r@ == cprefix(ccy62(self))'),
+        ('get_field_60_currency', 'r@ == ccy60(self)'),
+        ('get_field_62_currency', 'r@ == ccy62(self)'),
+    ],
+    rules=[
+        vec('validate_c1_currency_consistency', 'c1_spec', doc='C1 (C27)', extra='hint start\n  broadcast use group_codes;\nfmtcat *'),
     ])
